@@ -43,6 +43,9 @@ extern "C" void harness(void) {
     router->processTransaction();
     for (int step = 0; step < NSTEPS; step++) {
         int op = verif_choice(5);
+#ifdef OPMASK
+        ASSUME((OPMASK >> op) & 1);          // job-level restriction of the operation menu
+#endif
         PolyLine before = conn->displayRoute();
         if (op == 0) {
             ASSUME(S.aAlive);
